@@ -41,6 +41,9 @@ func (r *DescribeLogDirsResponse) decode(pd packetDecoder, version int16) error 
 		return err
 	}
 
+	if n < 0 {
+		return errInvalidArrayLength
+	}
 	r.LogDirs = make([]DescribeLogDirsResponseDirMetadata, n)
 	for i := 0; i < n; i++ {
 		dir := DescribeLogDirsResponseDirMetadata{}
@@ -115,6 +118,9 @@ func (r *DescribeLogDirsResponseDirMetadata) decode(pd packetDecoder, version in
 		return err
 	}
 
+	if n < 0 {
+		return errInvalidArrayLength
+	}
 	r.Topics = make([]DescribeLogDirsResponseTopic, n)
 	for i := 0; i < n; i++ {
 		t := DescribeLogDirsResponseTopic{}
@@ -162,6 +168,9 @@ func (r *DescribeLogDirsResponseTopic) decode(pd packetDecoder, version int16) e
 	n, err := pd.getArrayLength()
 	if err != nil {
 		return err
+	}
+	if n < 0 {
+		return errInvalidArrayLength
 	}
 	r.Partitions = make([]DescribeLogDirsResponsePartition, n)
 	for i := 0; i < n; i++ {
